@@ -33,7 +33,7 @@ class Oracle:
             self.lowq = set()
             return None
         if name == "c.own":
-            p, b = reply.split("pick=")[1].split("/")
+            p, b = reply.split("pick=")[1].split()[0].split("/")
             self.route = ([int(x) for x in p.split(",")], [int(x) for x in b.split(",")] if b != "-" else [])
             return None
         if name == "wb.del":
@@ -108,7 +108,7 @@ class Gen:
         yield "c.mcq %d" % mcq
         key = hx(b"q%d" % r.randrange(50))
         rep = yield "c.own dm %s" % key
-        p, b = rep.split("pick=")[1].split("/")
+        p, b = rep.split("pick=")[1].split()[0].split("/")
         owner = int(p.split(",")[-1])
         baks = [int(x) for x in b.split(",")] if b != "-" else []
         # phase 1: healthy
